@@ -64,6 +64,29 @@ def one(args):
             j = rnd.randrange(i, len(lines) + 1)
             main, files = lines[:i] + [" INCLUDE part.asm\n"] + lines[j:], {"part.asm": lines[i:j]}
             t["kind"] = "include"
+        elif mode == "twice":
+            # the same (label-free) file included two or three times, directly and through another file: every occurrence is replaced by its lines
+            body = [l for l in lines if l[:1] in " \t"][:rnd.randint(1, 4)] or [" NOP \n"]
+            body = [l for l in body if " ORG" not in l.upper() and " END" not in l.upper() and " NAM" not in l.upper()] or [" NOP \n"]
+            rest = [l for l in lines]
+            cut = sorted(rnd.sample(range(len(rest) + 1), 2))
+            inc = " INCLUDE common.asm\n"
+            via = " INCLUDE via.asm\n"
+            use_via = rnd.random() < 0.5
+            main = rest[:cut[0]] + [inc] + rest[cut[0]:cut[1]] + [via if use_via else inc] + rest[cut[1]:] + ([inc] if rnd.random() < 0.3 else [])
+            files = {"common.asm": body}
+            if use_via:
+                files["via.asm"] = [" NOP \n", inc, " NOP \n"]
+            spl = []
+            for l in main:
+                if l == inc:
+                    spl += body
+                elif l == via:
+                    spl += [" NOP \n"] + body + [" NOP \n"]
+                else:
+                    spl.append(l)
+            lines = spl
+            t["kind"] = "include"
         elif mode == "missing":
             main, files = lines[:2] + [" INCLUDE nosuch.asm\n"] + lines[2:], {}
             t["kind"] = "include-reject"
@@ -98,7 +121,7 @@ def run(ctx):
     ctx.add_model("MC_Include(3 files, <=2 items)", r, {"invariants": ["TextualInclusion", "RejectsExactly", "StackBounded", "Terminates (liveness)"]})
     t0 = time.time()
     n = 20000 if thorough else 700
-    modes = ["tree"] * 6 + ["every-boundary"] * 3 + ["missing", "cycle"]
+    modes = ["tree"] * 5 + ["every-boundary"] * 3 + ["twice", "missing", "cycle"]
     os.environ["VERIF_SCRATCH"] = tlc.OUT
     with mp.Pool(16) as pool:
         ts = pool.map(one, [(k, rnd.randrange(1 << 40), modes[k % len(modes)]) for k in range(n)], chunksize=10)
